@@ -228,7 +228,8 @@ class Graphs:
 
     def prefetch(self, schemas):
         todo = [s for s in dict.fromkeys(schemas) if s not in self.g]
-        rs = run_cases(self.drv, [line_of({"ep": "G", "schema": s}) for s in todo], case_ms=30000)
+        # (a schema whose parse does not return has no graph: the nesting classifiers look at its text only)
+        rs = run_cases(self.drv, [line_of({"ep": "G", "schema": s}) for s in todo], case_ms=1500, per_shard=4)
         for s, r in zip(todo, rs):
             g = None
             if r["v"] == "OK":
@@ -1021,7 +1022,7 @@ def run(tier, seed):
     depth_cases = gen_depth(in_depths, tier, schema_depths=small_schema_depths)
     probe_cases = [c for c in gen_depth(probe_schema_depths, tier, schema_depths=probe_schema_depths) if c["fam"].startswith("depth/schema-")]
     if quick:
-        probe_cases = [c for c in probe_cases if c["ep"] in "PF" or (c["ep"] == "J" and c["doc"].startswith("[")) or (c["ep"] == "C" and c["doc"][:1] == b"\x81")]
+        probe_cases = [c for c in probe_cases if c["ep"] in "PSF" or (c["ep"] == "J" and c["doc"].startswith("[")) or (c["ep"] == "C" and c["doc"][:1] == b"\x81")]
     beyond_cases = [dict(c, fam=c["fam"].replace("depth/", "beyond/")) for c in gen_depth(out_depths, "quick", schema_depths=[] if quick else [65, 128])]
     hostile = gen_hostile(rng, tier, (30 if quick else 0) * (3 if wide else 1))
     # phase 1: one document per (schema, entry point); phase 2: the rest, for schemas that did not hang
@@ -1040,7 +1041,7 @@ def run(tier, seed):
     execute([c for c in head_cases if (c["ep"] == "D" and (not quick or c["fam"] in ("head/truncated", "head/+3", "head/in-array", "head/chunk-boundary"))) or not quick], "debug")
     phase("heads")
     execute(depth_cases, "release"); execute(depth_cases, "debug")
-    execute(probe_cases, "release", ms=700 if quick else 3000)
+    execute(probe_cases, "release", ms=400 if quick else 3000)
     phase("depth")
     rb = execute(beyond_cases, "release", ms=1000 if quick else case_ms, beyond=True)
     phase("beyond")
@@ -1096,6 +1097,9 @@ def run(tier, seed):
             mismatches += 1
             res.violation("alias-chase model predicts that validate_json_from_str does not return (chase_seq = OutOfFuel) but it returned %s: schema %r doc %s"
                           % (r["v"], c["schema"], c["doc"]), dict(replay_of(c, "release", r), predicted="O"))
+        elif oa != "O" and nonret and run_cases(drv["release"], [line_of(c)], case_ms=12000)[0]["v"] not in FAIL:
+            notes.append("alias family: %s not confirmed on re-run" % r["v"])
+            agree["predicted-return-observed"] += 1
         elif oa != "O" and nonret:
             mismatches += 1
             res.violation("validate_json_from_str: %s on a schema whose control target reaches no alias cycle (model chase returns %s; acyclic_alias = %s): schema %r doc %s"
@@ -1154,7 +1158,7 @@ def run(tier, seed):
     # ---- 5. growth: time at n, 2n, 4n -------------------------------------------------------
     growth = {}
     sizes = [16384, 32768, 65536]
-    reps = 2 if quick else 5
+    reps = 1 if quick else 4
     glist = []
     for fam in GROWTH_FAMILIES:
         for n in sizes:
@@ -1163,32 +1167,58 @@ def run(tier, seed):
                 glist.append(c)
     for profile in ("release", "debug") if not quick else ("release",):
         best = {}
-        for rep in range(reps):
-            rs = run_cases(drv[profile], [line_of(c) for c in glist], case_ms=20000 if quick else 60000, shards=8, per_shard=1)
-            for i, (c, r) in enumerate(zip(glist, rs)):
-                if rep == 0:
+
+        def measure(indices, count_them):
+            rs = run_cases(drv[profile], [line_of(glist[i]) for i in indices], case_ms=20000 if quick else 60000, shards=8, per_shard=1)
+            for i, r in zip(indices, rs):
+                c = glist[i]
+                if count_them:
                     kf = classify(c, r, profile, graphs) if r["v"] in FAIL else None
                     tally.add(c, r, profile, kf)
                     if r["v"] in FAIL and kf is None:
                         tally.unexplained.append((c, r, profile))
                 if r["v"] in ("OK", "ERR"):
                     best[i] = min(best.get(i, 10 ** 12), max(r["cpu"], 1))
+
+        def ratios(byn):
+            ts = [best.get(byn[n]) for n in sizes]
+            if None in ts:
+                return ts, None, None
+            floor = 2000.0   # below 2 ms the measurement is noise
+            return ts, max(ts[1], floor) / max(ts[0], floor), max(ts[2], floor) / max(ts[1], floor)
+
+        def too_fast(r1, r2, ep=None):
+            # a generous polynomial: geometric mean of the two doublings at most 10, no single doubling above 16;
+            # decode_cbor, whose model is proven to need linear fuel (C05_decode_terminates), must stay below
+            # quadratic growth: t(4n) / t(n) at most 10 (linear: 4, quadratic: 16)
+            if r1 is None:
+                return False
+            if ep == "D" and r1 * r2 > 10.0:
+                return True
+            return r1 > 16 or r2 > 16 or r1 * r2 > 100.0
+
+        for rep in range(reps):
+            measure(list(range(len(glist))), rep == 0)
         # group: same family, entry point and position in the family's list
         groups = {}
         for i, c in enumerate(glist):
             pos = [j for j, d in enumerate(glist) if d["fam"] == c["fam"] and d["n"] == c["n"]].index(i)
             groups.setdefault((c["fam"], c["ep"], pos), {})[c["n"]] = i
+        # a suspicious group is measured again (minimum over more repetitions) before it is judged
+        suspicious = [i for (fam, ep, pos), byn in groups.items() if too_fast(*ratios(byn)[1:], ep=ep) for i in byn.values()]
+        for _ in range(4):
+            if not suspicious:
+                break
+            measure(suspicious, False)
+            suspicious = [i for (fam, ep, pos), byn in groups.items() if too_fast(*ratios(byn)[1:], ep=ep) for i in byn.values() if i in suspicious]
         for (fam, ep, pos), byn in sorted(groups.items()):
-            ts = [best.get(byn[n]) for n in sizes]
+            ts, r1, r2 = ratios(byn)
             key = "%s %s #%d %s" % (fam, ENTRY[ep], pos, profile)
-            if None in ts:
+            if r1 is None:
                 growth[key] = {"cpu_us": ts, "note": "a size did not return normally"}
                 continue
-            floor = 2000.0   # below 2 ms the measurement is noise
-            r1, r2 = max(ts[1], floor) / max(ts[0], floor), max(ts[2], floor) / max(ts[1], floor)
             growth[key] = {"cpu_us": ts, "ratio_2n_over_n": round(r1, 2), "ratio_4n_over_2n": round(r2, 2)}
-            # a generous polynomial: geometric mean of the two doublings at most 10, no single doubling above 16
-            if r1 > 16 or r2 > 16 or r1 * r2 > 100.0:
+            if too_fast(r1, r2, ep=ep):
                 c = glist[byn[sizes[2]]]
                 res.violation("growth of %s on family %s: cpu time %s us at n=%s grows faster than the polynomial bound (mean ratio > 10 per doubling)" % (ENTRY[ep], fam, ts, sizes),
                               dict(replay_of(c, profile, {"v": "SLOW", "detail": str(ts)}), kind="growth"))
@@ -1198,6 +1228,16 @@ def run(tier, seed):
                               dict(replay_of(c, profile, {"v": "SLOW", "detail": str(ts)}), kind="budget"))
     phase("growth")
     # ---- 6. unexplained failures are violations -----------------------------------------------
+    # every one of them is first re-run alone with a four times longer watchdog (a loaded machine must not
+    # turn into a finding)
+    confirmed = []
+    for c, r, profile in tally.unexplained[:60]:
+        r2 = run_cases(drv[profile], [line_of(c)], case_ms=max(4 * case_ms, 12000))[0]
+        if r2["v"] in FAIL:
+            confirmed.append((c, r2, profile))
+        else:
+            notes.append("not confirmed on re-run: %s %s on %s -> %s" % (ENTRY.get(c["ep"], c["ep"]), r["v"], c.get("fam"), r2["v"]))
+    tally.unexplained = confirmed + tally.unexplained[60:]
     seen_v = set()
     if os.environ.get("VERIF_DEBUG"):
         for c, r, profile in tally.unexplained:
@@ -1216,7 +1256,7 @@ def run(tier, seed):
             res.known(findings[kid])
     # ---- 7. vm_compute slice: guards the extraction ---------------------------------------------
     sl_exprs, sl_lines = [], []
-    for c in rng.sample(alias_cases, min(70, len(alias_cases))):
+    for c in rng.sample(alias_cases, min(55, len(alias_cases))):
         ids = Ids()
         sl_lines.append(oracle_line(c["hits"], c["env"], c["start"], ids))
         hits = "[" + "; ".join("[" + "; ".join(str(ids.of(h)) for h in hs) + "]" for hs in c["hits"]) + "]%N"
@@ -1240,6 +1280,8 @@ def run(tier, seed):
         if proved:
             res.violation("vm_compute slice failed: %s" % str(e)[-300:], {"kind": "vm-slice"}, no_input=True)
     phase("vm-slice")
+    # crashes with their input first (only the first 20 violations are printed)
+    res.violations.sort(key=lambda v: 0 if isinstance(v[1], dict) and v[1].get("observed") in FAIL else 1)
     if not proved and not res.violations:
         res.violation(res.proof_broken, {"kind": "proof-obligation", "detail": res.proof_broken}, no_input=True)
     # ---- evidence ------------------------------------------------------------------------------
